@@ -633,7 +633,7 @@ def check(rep):
                 'channel.list, rotating over {no filter, substring filter, regex filter + flag, filter matching nothing, flag only}; default '
                 'page sizes (argument omitted) around the page boundaries 0, 99, 100, 101, 200, 201; random large pairs (n <= 6000, '
                 '<= 400 requests); HTTPClient.list called directly with random paths; plus scripted misbehaving servers (13 fault kinds '
-                'injected at a random reply).  distinct = (op, show_all, n, page size, filter kind[, script]); non-trivial = >= 2 requests, '
+                'injected at a random reply) and every reply sequence of length <= 2 over a 62-reply alphabet (thorough; 400 sampled in quick).  distinct = (op, show_all, n, page size, filter kind[, script]); non-trivial = >= 2 requests, '
                 'or n a multiple of the page size, or a scripted fault')
     rep.assumptions = [
         'the well-behaved server is RabbitMQ as documented for paginated listings: page_count = ceil(filtered/page_size), the filter of each '
@@ -663,7 +663,7 @@ def check(rep):
     for shape in SHAPES:
         for n in range(0, nmax + 1):
             for p in range(1, pmax + 1):
-                kinds = filts if thorough and (n <= 12 or n % p == 0) else [filts[rot % len(filts)], 'none' if rot % 2 else 'rx']
+                kinds = filts if thorough else [filts[rot % len(filts)], 'none' if rot % 2 else 'rx']
                 rot += 1
                 for fk in dict.fromkeys(kinds):
                     cases.append(make_case(rng, shape, n, p, fk))
@@ -673,7 +673,7 @@ def check(rep):
             cases.append(make_case(rng, shape, n, 'default', rng.choice(filts)))
             cases.append(make_case(rng, shape, n, None, rng.choice(filts)))
     # -- random large --------------------------------------------------------------------------
-    for _ in range(80 if not thorough else 400):
+    for _ in range(80 if not thorough else 1000):
         shape = rng.choice(SHAPES)
         p = rng.choice([rng.randint(1, 9), rng.randint(10, 100), rng.randint(100, 500), rng.randint(500, 3000)])
         n = rng.randint(0, min(6000, p * 400))
@@ -696,8 +696,17 @@ def check(rep):
             c['flag'] = rng.choice([1, -3, 0, 'yes', 'False', ''])
         cases.append(c)
     # -- scripted misbehaving servers ------------------------------------------------------------
-    for _ in range(1200 if not thorough else 6000):
+    for _ in range(1200 if not thorough else 20000):
         cases.append(make_script_case(rng, rng.choice(SHAPES + [('queue.list', False)])))
+    # -- exhaustive small scope: every reply sequence of length <= 2 over a 62-reply alphabet -----
+    alphabet = [('E',), ('L', 0, 2)] + [('P', pg, pc, it) for pg in (None, 1, 2, 3) for pc in (None, 0, 1, 2, 3)
+                                         for it in (None, (0, 0), (0, 1))]
+    seqs = [[a] for a in alphabet] + [[a, b] for a in alphabet for b in alphabet]
+    if not thorough:
+        seqs = rng.sample(seqs, 400)
+    for sc in seqs:
+        cases.append({'op': 'connection.list', 'n': 0, 'prefix': 'q', 'script': sc, 'fault': 'enumerated', 'page_size': 1})
+    rep.exhaustive = False   # the theorems are unbounded; the enumeration only supports the tie
     run_cases(rep, client, cases, lines, expect, meta)
 
     if rep.build.driver_ok:
